@@ -101,6 +101,22 @@ fn fmt_ops(ops: &[(Vec<i32>, ClauseApplication)]) -> String {
     ops.iter().map(|(c, ap)| format!("{} {}", if *ap == ClauseApplication::Add { "a" } else { "r" }, c.iter().map(|l| l.to_string()).collect::<Vec<_>>().join(" "))).collect::<Vec<_>>().join(" / ")
 }
 
+/// how an edit relates to the latest effective edit: the code answers the exact inverse (adds and removes
+/// exchanged, as sets of clauses) from its undo cache, i.e. with the state before that edit
+enum Rel { Plain, Inverse, Skip }
+fn relation_to_latest(prev: &Option<(TT, u32, Vec<(Vec<i32>, ClauseApplication)>)>, prev_ambiguous: bool, adds: &[Clause], rmvs: &[Clause]) -> Rel {
+    let Some((_, _, pops)) = prev else { return Rel::Plain };
+    let eff = |ap: ClauseApplication| -> std::collections::BTreeSet<Clause> {
+        pops.iter().filter(|(c, a)| *a == ap && !c.is_empty() && !c.iter().any(|l| c.contains(&-l))).map(|(c, _)| c.iter().copied().collect::<Clause>()).collect() };
+    let (padds, prmvs) = (eff(ClauseApplication::Add), eff(ClauseApplication::Remove));
+    let a: std::collections::BTreeSet<Clause> = adds.iter().cloned().collect();
+    let r: std::collections::BTreeSet<Clause> = rmvs.iter().cloned().collect();
+    if a == prmvs && r == padds { return if prev_ambiguous { Rel::Skip } else { Rel::Inverse }; }
+    // the latest edit added a clause that was already stored: removing it again is neither a clean inverse nor a plain removal
+    if prev_ambiguous && r.iter().any(|c| padds.contains(c)) { return Rel::Skip; }
+    Rel::Plain
+}
+
 fn rand_clause(rng: &mut Rng, n: u32, maxw: usize) -> Clause {
     let w = 1 + rng.below(maxw.min(n as usize));
     let mut c = Clause::new();
@@ -172,7 +188,11 @@ fn part_b(a: &Args, out: &mut Out, rng: &mut Rng) {
                 let (s1, s2): (Clause, Clause) = (c1.iter().copied().collect(), c2.iter().copied().collect());
                 if s1 == s2 { continue; }
                 let rest: Vec<Clause> = stored.iter().map(|x| x.iter().copied().collect::<Clause>()).filter(|x| *x != s1 && *x != s2).collect();
-                want_tt = cnf_tt(cur_n, &rest); want_n = cur_n;
+                match relation_to_latest(&prev, prev_ambiguous, &[], &[s1.clone(), s2.clone()]) {
+                    Rel::Skip => continue,
+                    Rel::Inverse => { step_is_inverse = true; let (ptt, pn, _) = prev.clone().unwrap(); want_tt = ptt; want_n = pn; }
+                    Rel::Plain => { want_tt = cnf_tt(cur_n, &rest); want_n = cur_n; }
+                }
                 label = format!("remove {:?} and {:?} in one edit", c1, c2);
                 ops = vec![(c1, ClauseApplication::Remove), (c2, ClauseApplication::Remove)];
             } else if kind < 47 && !stored.is_empty() {
@@ -184,7 +204,11 @@ fn part_b(a: &Args, out: &mut Out, rng: &mut Rng) {
                 if stored.iter().any(|x| x.iter().copied().collect::<Clause>() == addc) { continue; }
                 let t = and_clause(&cnf_tt(cur_n, &rest), &addc.iter().copied().collect::<Vec<i32>>());
                 if t.count() == 0 { continue; }
-                want_tt = t; want_n = cur_n;
+                match relation_to_latest(&prev, prev_ambiguous, &[addc.clone()], &[cset.clone()]) {
+                    Rel::Skip => continue,
+                    Rel::Inverse => { step_is_inverse = true; let (ptt, pn, _) = prev.clone().unwrap(); want_tt = ptt; want_n = pn; }
+                    Rel::Plain => { want_tt = t; want_n = cur_n; }
+                }
                 let addv: Vec<i32> = addc.into_iter().collect();
                 label = format!("remove {:?} and add {:?} in one edit", c, addv);
                 ops = if rng.chance(0.5) { vec![(c, ClauseApplication::Remove), (addv, ClauseApplication::Add)] } else { vec![(addv, ClauseApplication::Add), (c, ClauseApplication::Remove)] };
